@@ -36,6 +36,14 @@ def flush_effects(prog, cls, flush_fn, close_fn):
     for c in all_calls:
         if id(c) in nested:
             continue  # argument of another effect call
+        par = getattr(c, "_parent", None)
+        if isinstance(par, ast.Assign) and par.value is c and len(par.targets) == 1 and isinstance(par.targets[0], ast.Name):
+            # result held in a local that is only ever passed on as an argument of another call: same thing
+            loc = par.targets[0].id
+            uses = [n for n in ast.walk(flush_fn) if isinstance(n, ast.Name) and n.id == loc and isinstance(n.ctx, ast.Load)]
+            arg_nodes = {id(x) for c2 in all_calls if c2 is not c for a in list(c2.args) + [k.value for k in c2.keywords] for x in ast.walk(a)}
+            if uses and all(id(u) in arg_nodes for u in uses):
+                continue
         f = norm(c.func)
         if any(f == x or f.startswith(x) for x in IGNORED_EFFECTS):
             continue
